@@ -33,6 +33,10 @@ def mat(e, env, atoms):
     if txt in atoms:
         nm, sym = atoms[txt]
         return MatForm.atom(nm, sym)
+    if isinstance(e, ast.Subscript) and ast.unparse(e.value) in ("self.model_.innovations", "self.model_.sensor_prediction_uncertainty"):
+        # a record of some *other* key: a different atom, so that the form differs (not: underivable)
+        base = "y" if ast.unparse(e.value).endswith("innovations") else "S"
+        return MatForm.atom(f"{base}[{ast.unparse(e.slice)}]", base == "S")
     if isinstance(e, ast.Call):
         f = ast.unparse(e.func)
         if f in ("float", "np.asarray", "np.array", "np.squeeze") and e.args:
@@ -40,9 +44,32 @@ def mat(e, env, atoms):
         if f in ("np.matmul", "np.dot", "numpy.matmul") and len(e.args) == 2:
             a, b = mat(e.args[0], env, atoms), mat(e.args[1], env, atoms)
             return a * b if a is not None and b is not None else None
-        if f in ("np.linalg.inv", "numpy.linalg.inv", "np.linalg.pinv") and e.args:
+        if f in ("np.linalg.inv", "numpy.linalg.inv") and e.args:
             a = mat(e.args[0], env, atoms)
             return a.inv() if a is not None else None
+        kw = {k.arg: k.value for k in e.keywords}
+        flag = lambda nm, default: (kw[nm].value if nm in kw and isinstance(kw[nm], ast.Constant) else default)
+        if f.split(".")[-1] == "cholesky" and e.args:
+            # numpy returns the lower factor L (A = L.L^T); scipy.linalg.cholesky the upper one U = L^T unless lower=True
+            a = mat(e.args[0], env, atoms)
+            if a is None:
+                return None
+            lower = True if f.startswith(("np.", "numpy.")) else bool(flag("lower", False))
+            L = MatForm.chol(a)
+            return L if lower else L.T()
+        if f.split(".")[-1] == "solve_triangular" and len(e.args) >= 2:
+            a, b = mat(e.args[0], env, atoms), mat(e.args[1], env, atoms)
+            if a is None or b is None:
+                return None
+            tr = flag("trans", 0)
+            return (a.T() if tr in (1, "T", 2, "C") else a).inv() * b
+        if f in ("np.linalg.solve", "numpy.linalg.solve", "scipy.linalg.solve", "solve") and len(e.args) >= 2:
+            a, b = mat(e.args[0], env, atoms), mat(e.args[1], env, atoms)
+            return a.inv() * b if a is not None and b is not None else None
+        if f in ("np.sum", "numpy.sum") and len(e.args) == 1 and isinstance(e.args[0], ast.Call) and ast.unparse(e.args[0].func) in ("np.square", "numpy.square") \
+                and len(e.args[0].args) == 1:
+            w_ = mat(e.args[0].args[0], env, atoms)           # sum of squares of a column = w^T.w
+            return w_.T() * w_ if w_ is not None else None
         if f in ("np.transpose",) and e.args:
             a = mat(e.args[0], env, atoms)
             return a.T() if a is not None else None
@@ -125,7 +152,8 @@ def run(ctx: core.Ctx) -> int:
     if row is None:
         raise core.AnalysisError(f"{where}: no row loop calling process_model found")
     rows_txt = T(row.iter)
-    ok_rows = rows_txt in ("range(X.shape[0])", "range(n_samples)", "range(len(X))")
+    XN0 = next((a.arg for a in tr.args.args if a.arg != "self"), "X")
+    ok_rows = rows_txt in (f"range({XN0}.shape[0])", "range(n_samples)", f"range(len({XN0}))")
     ridx = row.target.id if isinstance(row.target, ast.Name) else None
     if not ok_rows:
         if "sorted" in rows_txt or "reversed" in rows_txt or "[::" in rows_txt:
@@ -136,25 +164,30 @@ def run(ctx: core.Ctx) -> int:
     else:
         ctx.oblige("SEQUENCE", where, f"rows iterated by `{rows_txt}`", True, file=F, func=q, construct="row loop")
     in_row = [i for i in items if i.loops == (row,)]
+    XN = next((a.arg for a in tr.args.args if a.arg != "self"), "X")
+    SN = next((i.target.id for i in items if i.kind == "assign" and not i.loops and isinstance(i.target, ast.Name)
+               and ast.unparse(i.value).replace(" ", "") == "self.model_.State()"), "state")
+    PN = next((i.target.id for i in items if i.kind == "assign" and not i.loops and isinstance(i.target, ast.Name)
+               and ast.unparse(i.value).replace(" ", "") == "self.model_.Covariance()"), "covariance")
     sens = next((i.stmt for i in in_row if i.kind == "for-begin" and any(isinstance(c, ast.Call) and ast.unparse(c.func).endswith(".sensor_model")
                                                                           for c in ast.walk(i.stmt))), None)
     if sens is None:
         raise core.AnalysisError(f"{where}: no per-sensor loop calling sensor_model found")
     in_sens = [i for i in items if i.loops == (row, sens)]
     # ---- CONSUME: control prefix and remainder
-    ctl_var = next((ast.unparse(i.target) for i in in_row if i.kind == "assign" and T(i.value) == f"X[{ridx},:{C}]"), None)
-    rest_cands = [ast.unparse(i.target) for i in in_row if i.kind == "assign" and T(i.value) == f"X[{ridx},{C}:]"]
+    ctl_var = next((ast.unparse(i.target) for i in in_row if i.kind == "assign" and T(i.value) == f"{XN}[{ridx},:{C}]"), None)
+    rest_cands = [ast.unparse(i.target) for i in in_row if i.kind == "assign" and T(i.value) == f"{XN}[{ridx},{C}:]"]
     threaded = {ast.unparse(i.target) for i in in_sens if i.kind == "assign"}
     rest_var = next((c for c in rest_cands if c in threaded), rest_cands[0] if rest_cands else None)    # the copy that the sensor loop consumes
-    slices = [T(i.value) for i in in_row if i.kind == "assign" and isinstance(i.value, ast.Subscript) and T(i.value).startswith("X[")]
+    slices = [T(i.value) for i in in_row if i.kind == "assign" and isinstance(i.value, ast.Subscript) and T(i.value).startswith(f"{XN}[")]
     if ctl_var is None or rest_var is None:
         if slices:
             ctx.oblige("CONSUME", where, f"row slices {slices}", False, file=F, func=q, construct="control split",
-                       msg=f"the row is split as {slices}; required X[{ridx}, :{C}] (controls) and X[{ridx}, {C}:] (sensor columns)")
+                       msg=f"the row is split as {slices}; required {XN}[{ridx}, :{C}] (controls) and {XN}[{ridx}, {C}:] (sensor columns)")
         else:
             ctx.error(f"{where}: no slices of the data row found")
     else:
-        ctx.oblige("CONSUME", where, f"controls = X[{ridx}, :{C}], remainder = X[{ridx}, {C}:]", True, file=F, func=q, construct="control split")
+        ctx.oblige("CONSUME", where, f"controls = {XN}[{ridx}, :{C}], remainder = {XN}[{ridx}, {C}:]", True, file=F, func=q, construct="control split")
     # ---- prediction
     procs = [(i, c) for i in in_row for c in calls_in(i, ".process_model")]
     okp = len(procs) == 1
@@ -171,7 +204,7 @@ def run(ctx: core.Ctx) -> int:
                 defs = [x.value for x in items if x.kind == "assign" and isinstance(x.target, ast.Name) and x.target.id == d.id]
                 dt_ok = len(defs) == 1 and isinstance(defs[0], ast.Constant) and isinstance(defs[0].value, float) and defs[0].value > 0 \
                     and not any(x.loops for x in items if x.kind == "assign" and isinstance(x.target, ast.Name) and x.target.id == d.id)
-        okp = dt_ok and len(call.args) == 4 and args[1:3] == ["state", "covariance"] and tg == "state,covariance"
+        okp = dt_ok and len(call.args) == 4 and args[1:3] == [SN, PN] and tg == f"{SN},{PN}"
         why = f"process_model({', '.join(args)}) -> {tg}; required (fixed positive dt, state, covariance, controls) -> state, covariance"
         # the control argument: Control.from_data(<control slice>.reshape((C, 1)))
         if len(call.args) == 4 and ctl_var is not None:
@@ -179,7 +212,7 @@ def run(ctx: core.Ctx) -> int:
             cands = [T(carg)]
             if isinstance(carg, ast.Name):
                 cands += [T(x.value) for x in in_row if x.kind == "assign" and ast.unparse(x.target) == carg.id]
-            want = {TT(f"self.model_.Control.from_data({ctl_var}.reshape(({C},1)))"), f"self.model_.Control.from_data(X[{ridx},:{C}].reshape(({C},1)))"}
+            want = {TT(f"self.model_.Control.from_data({ctl_var}.reshape(({C},1)))"), f"self.model_.Control.from_data({XN}[{ridx},:{C}].reshape(({C},1)))"}
             ctl_ok = any(c in want for c in cands)
         ctx.oblige("SEQUENCE", where, "controls -> Control.from_data(column of control_size)", ctl_ok, file=F, func=q, construct="control reading",
                    msg="the control passed to process_model is not Control.from_data of the row's control columns")
@@ -259,7 +292,7 @@ def run(ctx: core.Ctx) -> int:
         st = kws.get("state", posa[0] if posa else None)
         cv = kws.get("covariance", posa[1] if len(posa) > 1 else None)
         rtxts = {rname} | ({T(mk[0][1])} if mk else set())
-        oku = st == "state" and cv == "covariance" and kws.get("sensor_key") == key and kws.get("sensor_reading") in rtxts and tg == "state,covariance"
+        oku = st == SN and cv == PN and kws.get("sensor_key") == key and kws.get("sensor_reading") in rtxts and tg == f"{SN},{PN}"
     ctx.oblige("SEQUENCE", where, "state, covariance = sensor_model(state, covariance, sensor_key=key, sensor_reading=reading)", oku, file=F, func=q,
                construct="sensor_model call", msg="the per-sensor update is not applied to the threaded (state, covariance) with this sensor's key and reading")
     apps = [(i, c) for i in in_sens if i.kind == "expr" for c in [i.value] if isinstance(c, ast.Call) and ast.unparse(c.func).endswith(".append")]
@@ -273,7 +306,9 @@ def run(ctx: core.Ctx) -> int:
         tmp_env = {k: v[0] for k, v in tmp_env.items() if len(v) == 1}
         form = mat(al.subst(apps[0][1].args[0]), tmp_env, atoms)
         want = MatForm.atom("y").T() * MatForm.atom("S", True).inv() * MatForm.atom("y")
-        okn = form is not None and form == want
+        if form is None:
+            ctx.error(f"{where}: the appended value `{ast.unparse(apps[0][1].args[0])[:80]}` has no derivable matrix normal form (functions outside the enumerated numpy / scipy subset)")
+        okn = form is None or form == want
         why = f"appended value normalises to {form!r}; required {want!r} (records of the same sensor key)"
     ctx.oblige("NIS-FORM", where, "appended value = y^T.Inv(S).y", okn, file=F, func=q, construct="NIS", msg=why)
     if upd is not None and apps:
@@ -323,13 +358,25 @@ def run(ctx: core.Ctx) -> int:
                    msg=f"sensor_model does not refresh self.{name}[sensor_key] on every call (a rejected reading leaves a stale record, from which the adapter computes its NIS)")
     # ---- mahalanobis / score
     mh = core.need(core.find_func(cls, "mahalanobis"), f"{CLS}.mahalanobis")
-    src = [s for s in mh.body if isinstance(s, ast.Assign) and "self.transform(" in ast.unparse(s.value)]
-    okm = len(src) == 1 and ast.unparse(src[0].targets[0]).split(",")[0].strip("( ") == "innovations"
+    # the values come from one transform(X, include_states=True) call: whatever its first component is called, that is what is returned flattened
+    src = [s_ for s_ in mh.body if isinstance(s_, ast.Assign) and "self.transform(" in ast.unparse(s_.value)]
+    VN = None
+    if len(src) == 1:
+        t0 = src[0].targets[0]
+        first = t0.elts[0] if isinstance(t0, (ast.Tuple, ast.List)) and t0.elts else t0
+        VN = first.id if isinstance(first, ast.Name) else None
+    okm = VN is not None
     rr = [r for r in ast.walk(mh) if isinstance(r, ast.Return) and r.value is not None]
-    okm = okm and len(rr) == 1 and ast.unparse(rr[0].value) == "innovations.flatten()"
-    guard = any(isinstance(s, ast.If) and "innovations < 0" in ast.unparse(s.test) and any(isinstance(b, ast.Raise) for b in ast.walk(s)) for s in mh.body)
-    ctx.oblige("OUTPUTS", f"{F}:{CLS}.mahalanobis", "returns transform's values flattened; negatives raise", okm and guard, file=F, func=f"{CLS}.mahalanobis",
-               construct="mahalanobis", msg="mahalanobis does not return the flattened transform output guarded against negative values")
+    okm = okm and len(rr) == 1 and ast.unparse(rr[0].value).replace(" ", "") in (f"{VN}.flatten()", f"{VN}.ravel()", f"{VN}.reshape(-1)", f"np.ravel({VN})")
+    # in between the name may only be re-shaped (reshape / np.array), never re-computed
+    if VN is not None:
+        for s_ in mh.body:
+            if isinstance(s_, ast.Assign) and any(isinstance(t, ast.Name) and t.id == VN for t in s_.targets) and s_ is not (src[0] if src else None):
+                v = ast.unparse(s_.value).replace(" ", "")
+                if not (v.startswith(f"np.reshape({VN},") or v.startswith(f"np.array({VN}).reshape(") or v.startswith(f"{VN}.reshape(") or v.startswith(f"np.asarray({VN})")):
+                    okm = False
+    ctx.oblige("OUTPUTS", f"{F}:{CLS}.mahalanobis", "returns transform's values flattened", bool(okm), file=F, func=f"{CLS}.mahalanobis",
+               construct="mahalanobis", msg="mahalanobis does not return the flattened output of one self.transform(X, include_states=True) call")
     score_rule(ctx, cls, mod)
     refuse_only_rule(ctx, cls, mod)
     for name in ("transform", "mahalanobis", "score"):
